@@ -187,6 +187,12 @@ func (l c05) Exec(env *core.Env) *core.Result {
 			res.Probe("validator_and_deprecated_client_both_supplied")
 		}
 		v, err := buildVerifier(cfg)
+		if err != nil && cfg.realLegacy != nil {
+			// refusing a configuration that names both is an answer too (stricter, not wrong): go on with the validator alone
+			res.Probe("validator_and_deprecated_client_both_supplied_refused")
+			cfg.realLegacy = nil
+			v, err = buildVerifier(cfg)
+		}
 		if err != nil {
 			res.Violate("HARNESS/verifier", "", "%v", err)
 			return
